@@ -466,6 +466,13 @@ func (fr *Frame) appendOp(cc *ssa.CallCommon, args []Value, st *State, pc Term, 
 		u.unsupportedf("append to %T", args[0])
 		return m.FreshValue(st, "append", cc.Args[0].Type())
 	}
+	// A-append (the result always lives in a new array) is not a sound model for a slice that is shared through a
+	// package-level variable: appending into its spare capacity makes the results of different calls alias
+	if ld, isLoad := cc.Args[0].(*ssa.UnOp); isLoad && ld.Op == token.MUL {
+		if g, isGlobal := ld.X.(*ssa.Global); isGlobal {
+			u.unsupportedf("append to the package-level slice %s in %s: results may share its backing array (outside the append model)", g.Name(), fr.fn.Name())
+		}
+	}
 	elem := cc.Args[0].Type().Underlying().(*types.Slice).Elem()
 	var t SliceV
 	tIsString := false
